@@ -92,7 +92,7 @@ fn %s() {
     }
 }""" % (cid, tup, cid, cid))
         fns.append(cid)
-        exp[cid] = {"kind": "seq", "new": c["new"], "src": tup, "n": len(leaves)}
+        exp[cid] = {"kind": "seq", "new": c["new"], "offences": c.get("offences", []), "src": tup, "n": len(leaves)}
     out.append("\nfn main() {\n    std::panic::set_hook(Box::new(|_| {}));\n" + "".join("    %s();\n" % f for f in fns) + "}\n")
     return "\n".join(out), exp
 
@@ -120,13 +120,15 @@ def compare_run(exp, obs_lines):
                 if got != "ok":
                     divs.append({"case": cid, "what": "a consistent clause list was rejected at construction", "expected": "ok", "observed": got, "exp": e})
             else:
-                marker = {"EmptyStub": "Stub contained no call patterns", "ModeConflict": "cannot be mixed for the same MockFn", "NoMutexApi": "No Mutex API"}[k]
+                markers = {"EmptyStub": "Stub contained no call patterns", "ModeConflict": "cannot be mixed for the same MockFn", "NoMutexApi": "No Mutex API"}
+                # any one of the reasons the list must be rejected for is a correct report (the statement does not say which comes first)
+                allowed = e["offences"] or [e["new"]]
+                def reports(off):
+                    return markers[off["k"]] in got and (off["k"] != "ModeConflict" or ("U::%s " % off["m"]) in got)
                 if got == "ok":
                     divs.append({"case": cid, "what": "an inconsistent set-up (%s) was not rejected when the mock was constructed" % k, "expected": e["new"], "observed": "constructed", "exp": e})
-                elif marker not in got:
-                    divs.append({"case": cid, "what": "construction failed with another error than %s" % k, "expected": e["new"], "observed": got, "exp": e})
-                elif k == "ModeConflict" and ("U::%s " % e["new"]["m"]) not in got:
-                    divs.append({"case": cid, "what": "mode conflict reported for another method", "expected": e["new"], "observed": got, "exp": e})
+                elif not any(reports(off) for off in allowed):
+                    divs.append({"case": cid, "what": "construction failed, but not with any of the reasons this clause list must be rejected for", "expected": allowed, "observed": got, "exp": e})
     return divs
 
 
